@@ -208,11 +208,12 @@ def p1(h, st):
 # ---------------------------------------------------------------------------------------------------------------------
 # O4  histories on ONE solver object
 
-@contract("C08", "O4.solver_histories", level="B", structures=lambda tier: [dict(c) for c in (CONFIGS[0], CONFIGS[2], CONFIGS[4], CONFIGS[6])[: 3 if tier == "quick" else 4]],
+@contract("C08", "O4.solver_histories", level="B", structures=lambda tier: [dict(c) for c in (CONFIGS[0], CONFIGS[2], CONFIGS[4], CONFIGS[6])[: 3 if tier == "quick" else 4]] + [dict(CONFIGS[0], defl=True), dict(CONFIGS[1], defl=True)],
           native_samples=lambda st, rnd, tier: [{"seed": rnd.randint(0, 10 ** 6)}],
           targets=[(VQ, "VQESolver.energy_estimation"), (VQ, "VQESolver.operator_expectation"), (VQ, "VQESolver.get_rdm")])
 def o4(h, st):
-    """bounded: ONE solver object along a history energy(t1), <N>(t2), energy(t2), get_rdm(t2), energy(t3), energy(t1), <Sz>(t1), energy(t2): every value equals the value a FRESHLY
+    """bounded: ONE solver object along a history energy(t1), <N>(t2), energy(t2), get_rdm(t2), energy(t3), energy(t1), <Sz>(t1), energy(t2) (with deflation circuits:
+    get_resources() interleaved with the energies and symmetry expectation values): every value equals the value a FRESHLY
     built solver returns for the same parameters (and, for the energies, the independent <psi|H|psi> of a freshly built ansatz state): nothing a call leaves behind in the solver,
     its ansatz, its backend or its Hamiltonian influences a later call; the energy of t1 is the same the second time"""
     import random
@@ -221,8 +222,15 @@ def o4(h, st):
     from contracts.C07 import molecule
     rnd = random.Random(int(h.integer("seed")))
 
+    from tangelo.linq import Circuit, Gate
+
     def fresh():
-        s_ = VQESolver({"molecule": molecule(st["mol"]), "ansatz": getattr(BuiltInAnsatze, st["ansatz"]), "qubit_mapping": st["mapping"], "up_then_down": st["utd"]})
+        opts = {"molecule": molecule(st["mol"]), "ansatz": getattr(BuiltInAnsatze, st["ansatz"]), "qubit_mapping": st["mapping"], "up_then_down": st["utd"]}
+        if st.get("defl"):
+            # deflation circuits (fresh objects for every solver), default reference state
+            opts["deflation_circuits"] = [Circuit([Gate("X", 0), Gate("RY", 1, parameter=0.4)], n_qubits=4), Circuit([Gate("H", 0), Gate("CNOT", 1, 0)], n_qubits=4)]
+            opts["deflation_coeff"] = 0.7
+        s_ = VQESolver(opts)
         s_.build()
         return s_
     s = fresh()
@@ -230,6 +238,8 @@ def o4(h, st):
     ts = [np.array([rnd.uniform(-1.5, 1.5) for _ in range(n)]) for _ in range(3)]
     first = {}
     history = [("energy", 0), ("N", 1), ("energy", 1), ("rdm", 1), ("energy", 2), ("energy", 0), ("Sz", 0), ("energy", 1)]
+    if st.get("defl"):
+        history = [("energy", 0), ("resources", 0), ("energy", 0), ("N", 1), ("resources", 1), ("energy", 1), ("Sz", 0), ("resources", 0), ("energy", 2), ("energy", 0)]
     for k, (what, ti) in enumerate(history):
         th = ts[ti]
         tag = f"call {k} ({what}, parameter vector {ti}): "
@@ -241,10 +251,18 @@ def o4(h, st):
             w = f.ansatz.circuit.width
             psi = state_of(f.ansatz.circuit, w)
             ref = float(np.real(psi.conj() @ op_matrix(f.qubit_hamiltonian, w) @ psi))
-            h.check(tag + "energy == <psi|H|psi> (independent evaluation)", abs(e - ref) < 1e-8, detail=f"{e} vs {ref}")
+            if st.get("defl"):
+                ref = ref + 0.7 * sum(abs(np.vdot(state_of(c_, w), psi)) ** 2 for c_ in f.deflation_circuits)
+            h.check(tag + "energy == <psi|H|psi> [+ coeff * overlaps] (independent evaluation)", abs(e - ref) < 1e-8, detail=f"{e} vs {ref}")
             if ti in first:
                 h.check(tag + "same energy as the first time these parameters were used", abs(e - first[ti]) < 1e-10, detail=f"{e} vs {first[ti]}")
             first.setdefault(ti, e)
+        elif what == "resources":
+            r = h.call(VQ, "VQESolver.get_resources", s)
+            rf = f.get_resources()
+            h.check(tag + "same resources as a freshly built solver", r == rf, detail=f"{r} vs {rf}")
+            h.check(tag + "the ansatz circuit still has the gates of a freshly built ansatz", len(s.ansatz.circuit._gates) == len(f.ansatz.circuit._gates),
+                    detail=f"{len(s.ansatz.circuit._gates)} vs {len(f.ansatz.circuit._gates)}")
         elif what in ("N", "Sz"):
             v = h.call(VQ, "VQESolver.operator_expectation", s, what, th.copy())
             vf = f.operator_expectation(what, th.copy())
